@@ -187,7 +187,7 @@ class Tracker:
 
 NS = 6
 # operations whose results must never share storage with another live object
-UNSHARED_OPS = {"newvec", "copy", "pycopy", "slice", "arith", "tabfrom", "stack", "setattr", "burst", "concat"}
+UNSHARED_OPS = {"newvec", "copy", "pycopy", "slice", "arith", "tabfrom", "stack", "setattr", "burst", "concat", "tderive", "selfop"}
 
 
 def choose(rng, w):
@@ -197,11 +197,11 @@ def choose(rng, w):
     dst = rng.randrange(NS)
     menu = [("newvec", 4), ("sharetuple", 3), ("burst", 4), ("gc", 1), ("drop", 3), ("pool", 1)]
     if vecs:
-        menu += [("shareof", 3), ("copy", 1), ("pycopy", 2), ("slice", 1), ("write", 10), ("arith", 1), ("tabfrom", 2), ("concat", 3)]
+        menu += [("shareof", 3), ("copy", 1), ("pycopy", 2), ("slice", 1), ("write", 10), ("arith", 1), ("tabfrom", 2), ("concat", 3), ("selfop", 2)]
     if len(vecs) >= 1:
         menu += [("stack", 4)]
     if tabs:
-        menu += [("pycopy_t", 2)]
+        menu += [("pycopy_t", 2), ("tderive", 4)]
         menu += [("getcol", 4), ("tabwrite_view", 2), ("write_cell", 4), ("share_col", 2), ("rowfail", 3)]
     if tabs and vecs:
         menu += [("setattr", 3)]
@@ -225,12 +225,22 @@ def choose(rng, w):
         return {"op": "pycopy", "dst": dst, "src": rng.choice(vecs), "how": rng.choice(["copy", "deepcopy", "ctor"])}
     if op == "pycopy_t":
         return {"op": "pycopy", "dst": dst, "src": rng.choice(tabs), "how": rng.choice(["copy", "deepcopy"])}
+    if op == "tderive":
+        # tables derived from a table (row slice / mask with a list or a Vector / positions / column selection / T / copy / >> / << /
+        # sort / the second indexing dimension): every one goes through the Vector(...)-returns-a-Table constructor path
+        return {"op": op, "dst": dst, "src": rng.choice(tabs), "form": rng.choice(["rows", "rowsall", "mask", "vmask", "take", "select", "T", "copy", "stackdict",
+                                                                                   "stackself", "append", "sort", "col2d", "cols2d", "neg"])}
+    if op == "selfop":
+        # the same object on both sides of an operation: the library detaches one operand with a transient copy, which must be gone
+        # (and out of the registry) when the operation returns
+        return {"op": op, "dst": dst, "src": rng.choice(vecs), "form": rng.choice(["add", "eq", "getself", "lshift", "rshift", "matmul"])}
     if op == "concat":
         # `<<` with nothing to add on one side: the result is still an operation result with storage of its own
         return {"op": op, "dst": dst, "src": rng.choice(vecs), "form": rng.choice(["list0", "vec0", "rlist0", "tuple0", "vec0l", "list1", "mask0", "sort", "fillna0", "fillnaNone", "dropna",
-                                                                                "cast", "toobj", "pos", "idxall", "head", "tail", "unique", "fillna0", "dropna"])}
+                                                                                "cast", "toobj", "pos", "idxall", "head", "tail", "unique", "fillna0", "dropna", "vmask0", "idxallv", "ctorname", "copyvals"])}
     if op == "write":
-        return {"op": op, "r": rng.choice(vecs), "promote": rng.random() < 0.2, "form": rng.choice(["int", "int", "slice", "mask", "selfval", "selfrev", "selfkey"])}
+        return {"op": op, "r": rng.choice(vecs), "promote": rng.random() < 0.2,
+                "form": rng.choice(["int", "int", "slice", "mask", "selfval", "selfrev", "selfkey", "ilist", "vmask", "vilist", "tuple", "vecval"])}
     if op == "tabfrom":
         return {"op": op, "dst": dst, "srcs": [rng.choice(vecs) for _ in range(rng.randint(1, 2))], "form": rng.choice(["list", "dict"])}
     if op == "stack":
@@ -238,9 +248,11 @@ def choose(rng, w):
     if op == "getcol":
         return {"op": op, "dst": dst, "t": rng.choice(tabs), "j": rng.randrange(3)}
     if op == "tabwrite_view":
-        return {"op": "write_col", "t": rng.choice(tabs), "j": rng.randrange(3)}
+        return {"op": "write_col", "t": rng.choice(tabs), "j": rng.randrange(3), "promote": rng.random() < 0.3,
+                "form": rng.choice(["int", "slice", "mask", "ilist", "vmask", "vecval"])}
     if op == "write_cell":
-        return {"op": "write_cell", "t": rng.choice(tabs), "j": rng.randrange(3)}
+        return {"op": "write_cell", "t": rng.choice(tabs), "j": rng.randrange(3), "promote": rng.random() < 0.3,
+                "form": rng.choice(["cell", "cell", "name", "mask", "col", "colvec"])}
     if op == "rowfail":
         return {"op": "rowfail", "t": rng.choice(tabs), "form": rng.choice(["row", "region"])}
     if op == "share_col":
@@ -267,7 +279,26 @@ def target_of(slots, st):
 def do_write_cell(t, st):
     """table item assignment addressing ONE column: only that column's storage decides whether it is refused"""
     j = st["j"] % len(t.cols())
-    t[0, j] = 7
+    c = t.cols()[j]
+    k = c.schema().kind if c.schema() is not None else None
+    p = st.get("promote")
+    val = {_D: _DT(2022, 5, 6, 7) if p else _D(2022, 5, 6), float: (1 + 2j) if p else 7.5, str: "w", int: 2.5 if p else 7}.get(k, 7)
+    del c
+    f = st.get("form", "cell")
+    if f == "name":
+        from props.histcommon import accessor_names
+        acc = accessor_names(t, j)
+        t[0, acc[0] if acc else j] = val
+    elif f == "mask":
+        from serif import Vector
+        t[Vector([True] + [False] * (len(t) - 1)), j] = val
+    elif f == "col":
+        t[:, j] = [val] * len(t)
+    elif f == "colvec":
+        from serif import Vector
+        t[:, j] = Vector([val] * len(t))          # the value is a vector: read, never adopted
+    else:
+        t[0, j] = val
 
 
 def _mk(kind, i):
@@ -275,6 +306,7 @@ def _mk(kind, i):
 
 
 def do_write(o, st):
+    from serif import Vector as _V
     n = len(o)
     val = 2.5 if st.get("promote") else 7
     # every in-place promotion route: int -> float, int/float -> complex, date -> datetime
@@ -294,6 +326,16 @@ def do_write(o, st):
         o[0] = val
     elif f == "slice":
         o[0:1] = [val]
+    elif f == "ilist":
+        o[[0, -1]] = [val, val]
+    elif f == "vmask":
+        o[_V([True] + [False] * (n - 1))] = val      # the mask as a Vector
+    elif f == "vilist":
+        o[_V([0])] = val
+    elif f == "tuple":
+        o[(0,)] = val
+    elif f == "vecval":
+        o[0:1] = _V([val])
     elif f == "selfval":
         o[:] = o                      # the written vector is itself the value ...
     elif f == "selfrev":
@@ -343,7 +385,15 @@ def run_step(slots, pool, st):
         slots[st["dst"]] = slots[st["src"]] + 1
     elif op == "concat":
         src, f = slots[st["src"]], st.get("form")
-        if f == "list0":
+        if f == "vmask0":
+            slots[st["dst"]] = src[Vector([True] * len(src))] if len(src) else src.copy()
+        elif f == "idxallv":
+            slots[st["dst"]] = src[Vector(list(range(len(src))))] if len(src) else src.copy()
+        elif f == "ctorname":
+            slots[st["dst"]] = Vector(src, name="k")
+        elif f == "copyvals":
+            slots[st["dst"]] = src.copy(storage(src))       # copy(new_values) handed the very tuple the source holds
+        elif f == "list0":
             slots[st["dst"]] = src << []
         elif f == "tuple0":
             slots[st["dst"]] = src << ()
@@ -390,6 +440,54 @@ def run_step(slots, pool, st):
         else:
             slots[st["dst"]] = src << [7]
         del src
+    elif op == "tderive":
+        t, f = slots[st["src"]], st["form"]
+        n, nc = len(t), len(t.cols())
+        names = tuple(x for x in t.column_names() if isinstance(x, str))
+        r = None
+        if f == "rows":
+            r = t[0:max(n - 1, 0)]
+        elif f == "rowsall":
+            r = t[:]
+        elif f == "mask":
+            r = t[[True] * n] if n else t.copy()
+        elif f == "vmask":
+            r = t[Vector([True] * n)] if n else t.copy()
+        elif f == "take":
+            r = t[Vector(list(range(n)))] if n else t.copy()
+        elif f == "select":
+            r = t[names] if names else t.copy()
+        elif f == "T":
+            r = t.T
+        elif f == "copy":
+            r = t.copy()
+        elif f == "stackdict":
+            r = t >> {"zz": list(range(n))}
+        elif f == "stackself":
+            r = t >> t
+        elif f == "append":
+            r = t << t
+        elif f == "sort":
+            r = t.sort_by(t.cols()[0]) if nc else t.copy()
+        elif f == "col2d":
+            r = t[:, 0] if nc else t.copy()
+        elif f == "cols2d":
+            r = t[:, 0:nc]
+        else:
+            r = -t
+        slots[st["dst"]] = r if isinstance(r, Vector) and r is not t else t.copy()
+        del t, r
+    elif op == "selfop":
+        src, f = slots[st["src"]], st["form"]
+        try:
+            r = (src + src if f == "add" else src == src if f == "eq" else src[src] if f == "getself" else src << src if f == "lshift"
+                 else src >> src if f == "rshift" else None)
+            if f == "matmul":
+                src @ src
+        except Exception:
+            r = None
+        slots[st["dst"]] = r if isinstance(r, Vector) and r is not src else src.copy()
+        del src, r
     elif op == "tabfrom":
         vs = [slots[i] for i in st["srcs"]]
         slots[st["dst"]] = Table(vs) if st["form"] == "list" else Table({"c%d" % i: list(v) for i, v in enumerate(vs)})
@@ -453,8 +551,10 @@ def applicable(kinds, st):
     def k(i):
         return kinds[i]
     op = st["op"]
-    if op in ("shareof", "copy", "slice", "arith", "concat"):
+    if op in ("shareof", "copy", "slice", "arith", "concat", "selfop"):
         return k(st["src"]) == "v"
+    if op == "tderive":
+        return k(st["src"]) == "t"
     if op == "pycopy":
         return k(st["src"]) in ("v", "t") and (st["how"] != "ctor" or k(st["src"]) == "v")
     if op == "write":
